@@ -46,6 +46,10 @@ def gen_uses_entry(rng, paths, own, earlier):
 
 def gen_ignore_entry(rng, paths, own, uses):
     r = rng.random()
+    nested = [q for q in paths if q.startswith(own + "/")]
+    if nested and rng.random() < 0.3:          # an ancestor ignoring something inside (or all of) a target nested under it
+        d = rng.choice(nested)
+        return d if rng.random() < 0.3 else d + "/" + rng.choice(FILES + ["src", "gen", "core/x"])
     if r < 0.35:
         return own + "/" + rng.choice(FILES)
     if r < 0.5:
@@ -77,6 +81,37 @@ def gen_config(rng, nmax=7, acyclic_bias=True, with_ignores=True):
         targets.append(t)
     rng.shuffle(targets)                              # declaration order is arbitrary
     return {"targets": targets}
+
+def gen_nested_interplay(rng):
+    """Directed family: nesting x uses x ignores acting on the SAME changes - an ancestor ignores something inside a nested target
+    that itself uses a path elsewhere; the change set hits both the ignored region and the used path (plus noise)."""
+    root = rng.choice(COMPS); child = root + "/" + rng.choice(COMPS)
+    lib = rng.choice([c for c in COMPS if c != root] or ["zlib"])
+    if rng.random() < 0.4: lib = lib + "/" + rng.choice(COMPS)
+    used = rng.choice([lib, lib + "/src", lib + "/f.txt", "common/util/x"])
+    ign = rng.choice([child + "/gen", child + "/f.txt", child, child + "/core/x"])
+    targets = [{"path": root, "ignores": [ign]}, {"path": child, "uses": [used]}, {"path": lib}]
+    if rng.random() < 0.5:
+        g = child + "/" + rng.choice(COMPS)
+        t = {"path": g}
+        if rng.random() < 0.5: t["uses"] = [used]
+        if rng.random() < 0.5: targets[0]["ignores"].append(g + "/" + rng.choice(FILES))
+        if rng.random() < 0.3: targets[1].setdefault("ignores", []).append(g)
+        targets.append(t)
+    if rng.random() < 0.4: targets[0].setdefault("uses", []).append(used)
+    if rng.random() < 0.3: targets[1].setdefault("ignores", []).append(used if rng.random() < 0.5 else used + "/" + rng.choice(FILES))
+    for _ in range(rng.randint(0, 2)):
+        p = rand_path(rng, 2)
+        if p not in [t["path"] for t in targets]: targets.append({"path": p, "uses": [rng.choice([child, root + "/x", used])]})
+    rng.shuffle(targets)
+    cfg = {"targets": targets}
+    inside_ign = ign if rng.random() < 0.3 and ign != child else ign + "/" + rng.choice(FILES)
+    hit_used = used if used.endswith(".txt") else used + "/" + rng.choice(FILES)
+    core = [inside_ign, hit_used]
+    extra = gen_changes(rng, cfg, rng.choice([0, 1, 3, 10, 60]))
+    changes = core + extra
+    if rng.random() < 0.7: rng.shuffle(changes)
+    return cfg, changes
 
 def gen_malformed_config(rng):
     cfg = gen_config(rng)
